@@ -261,11 +261,14 @@ class cpu_watchdog:
     search that never terminates becomes an observable failure instead of a hung check.  Main thread only; elsewhere
     it is a no-op."""
 
+    fires = 0          # once a few calls have run into the limit, later ones get a short one (keeps a broken tree fast)
+
     def __init__(self, seconds=CALL_CPU_LIMIT_S):
-        self.seconds = seconds
+        self.seconds = seconds if cpu_watchdog.fires < 3 else min(seconds, 3.0)
         self.armed = False
 
     def _fire(self, signum, frame):
+        cpu_watchdog.fires += 1
         raise NonTermination(f"no result within {self.seconds}s of CPU time")
 
     def __enter__(self):
